@@ -4,7 +4,7 @@ use crate::{
         ForceProgressIterator, Operation, OperationControl, RepeatOperation, MATCHES_ZLS_ANYWHERE,
     },
     re_flags::ReFlags,
-    re_matcher::ReMatcher,
+    re_matcher::{ReMatcher, Snapshot},
 };
 
 // Handle a repetition (with possible min and max) where the
@@ -15,15 +15,29 @@ pub(crate) struct Repeat {
     pub(crate) min: usize,
     pub(crate) max: usize,
     pub(crate) greedy: bool,
+    // the capturing groups inside the repeated operation
+    groups: Vec<usize>,
+}
+
+fn collect_groups(operation: &Operation, groups: &mut Vec<usize>) {
+    if let Operation::Capture(capture) = operation {
+        groups.push(capture.group_nr());
+    }
+    for child in operation.children() {
+        collect_groups(&child, groups);
+    }
 }
 
 impl Repeat {
     pub(crate) fn new(operation: Operation, min: usize, max: usize, greedy: bool) -> Self {
+        let mut groups = Vec::new();
+        collect_groups(&operation, &mut groups);
         Self {
             operation: Box::new(operation),
             min,
             max,
             greedy,
+            groups,
         }
     }
 }
@@ -60,6 +74,7 @@ impl OperationControl for Repeat {
             min,
             max: self.max,
             greedy: self.greedy,
+            groups: self.groups,
         })
     }
 
@@ -83,6 +98,11 @@ impl OperationControl for Repeat {
     ) -> Box<dyn Iterator<Item = usize> + 'a> {
         let mut iterators: Vec<Box<dyn Iterator<Item = usize>>> = Vec::new();
         let mut positions = Vec::new();
+        // when the repeated term captures groups: what was captured after each iteration
+        let capturing = self.contains_capturing_expressions();
+        let mut states: Vec<Snapshot> = Vec::new();
+        // the groups inside the repeated term have not participated in this repetition yet
+        matcher.clear_groups(&self.groups);
         let bound = self
             .max
             .min(matcher.search.len().saturating_sub(position) + 1);
@@ -100,6 +120,9 @@ impl OperationControl for Repeat {
                 // add a match at the current position if zero occurrences are allowed
                 iterators.push(Box::new(std::iter::once(position)));
                 positions.push(p);
+                if capturing {
+                    states.push(matcher.snapshot());
+                }
             }
             for _i in 0..bound {
                 let mut it = self.operation.matches_iter(matcher, p);
@@ -107,6 +130,9 @@ impl OperationControl for Repeat {
                     p = next;
                     iterators.push(it);
                     positions.push(p);
+                    if capturing {
+                        states.push(matcher.snapshot());
+                    }
                 } else if iterators.is_empty() {
                     return Box::new(std::iter::empty());
                 } else {
@@ -121,6 +147,8 @@ impl OperationControl for Repeat {
                     self.operation.as_ref(),
                     iterators,
                     positions,
+                    states,
+                    capturing,
                     bound,
                     self.min,
                 ),
@@ -169,6 +197,9 @@ struct GreedyRepeatIterator<'a> {
     min: usize,
     iterators: Vec<Box<dyn Iterator<Item = usize> + 'a>>,
     positions: Vec<usize>,
+    // parallel to positions when the repeated term captures groups
+    states: Vec<Snapshot>,
+    capturing: bool,
     bound: usize,
 }
 
@@ -178,6 +209,8 @@ impl<'a> GreedyRepeatIterator<'a> {
         operation: &'a Operation,
         iterators: Vec<Box<dyn Iterator<Item = usize> + 'a>>,
         positions: Vec<usize>,
+        states: Vec<Snapshot>,
+        capturing: bool,
         bound: usize,
         min: usize,
     ) -> Self {
@@ -188,6 +221,8 @@ impl<'a> GreedyRepeatIterator<'a> {
             min,
             iterators,
             positions,
+            states,
+            capturing,
             bound,
         }
     }
@@ -207,12 +242,19 @@ impl Iterator for GreedyRepeatIterator<'_> {
                 if let Some(mut p) = top.next() {
                     self.positions.pop();
                     self.positions.push(p);
+                    if self.capturing {
+                        self.states.pop();
+                        self.states.push(self.matcher.snapshot());
+                    }
                     while self.iterators.len() < self.bound {
                         let mut it = self.operation.matches_iter(self.matcher, p);
                         if let Some(next) = it.next() {
                             p = next;
                             self.iterators.push(it);
-                            self.positions.push(p)
+                            self.positions.push(p);
+                            if self.capturing {
+                                self.states.push(self.matcher.snapshot());
+                            }
                         } else {
                             break;
                         }
@@ -220,6 +262,9 @@ impl Iterator for GreedyRepeatIterator<'_> {
                 } else {
                     self.iterators.pop();
                     self.positions.pop();
+                    if self.capturing {
+                        self.states.pop();
+                    }
                 }
                 if self.iterators.len() >= self.min || self.iterators.is_empty() {
                     break;
@@ -229,6 +274,10 @@ impl Iterator for GreedyRepeatIterator<'_> {
         };
         if has_next {
             self.primed = false;
+            // the groups captured by iterations that have been given back are forgotten
+            if let Some(state) = self.states.last() {
+                self.matcher.restore(state);
+            }
             self.positions.last().copied()
         } else {
             None
